@@ -536,13 +536,7 @@ func (e *Env) ident(id *ast.Ident, hint types.Type) Val {
 	case *types.Var:
 		if obj.Parent() == obj.Pkg().Scope() {
 			// package-level variable
-			name := "G_" + san(obj.Pkg().Name()+"."+obj.Name())
-			c.regions[name] = c.sortOf(obj.Type())
-			v, ok := e.st.cells[name]
-			if ok {
-				return Val{T: obj.Type(), S: v.S}
-			}
-			return Val{T: obj.Type(), S: c.regionInit(name, e.st.gen)}
+			return e.globalVar(obj)
 		}
 		// local / parameter of the function in scope
 		if e.inOld {
@@ -597,12 +591,7 @@ func (e *Env) selector(ex *ast.SelectorExpr, hint types.Type) Val {
 						}
 						return c.constVal(t, o.Val())
 					case *types.Var:
-						name := "G_" + san(o.Pkg().Name()+"."+o.Name())
-						c.regions[name] = c.sortOf(o.Type())
-						if v, ok := e.st.cells[name]; ok {
-							return Val{T: o.Type(), S: v.S}
-						}
-						return Val{T: o.Type(), S: c.regionInit(name, e.st.gen)}
+						return e.globalVar(o)
 					}
 					e.fail("qualified identifier %s.%s", id.Name, ex.Sel.Name)
 				}
@@ -917,4 +906,21 @@ func (e *Env) specCallVals(fo *types.Func, args []Val) Val {
 	st.guard = "true"
 	v := x.inlineCall(st, fn, nil, args, resT, true)
 	return v
+}
+
+func (e *Env) globalVar(obj *types.Var) Val {
+	c := e.c
+	if sp := e.x.p.ssaProg.Package(obj.Pkg()); sp != nil {
+		if g := sp.Var(obj.Name()); g != nil {
+			if cv, ok := e.x.constGlobalVal(g); ok {
+				return cv
+			}
+		}
+	}
+	name := "G_" + san(obj.Pkg().Name()+"."+obj.Name())
+	c.regions[name] = c.sortOf(obj.Type())
+	if v, ok := e.st.cells[name]; ok {
+		return Val{T: obj.Type(), S: v.S}
+	}
+	return Val{T: obj.Type(), S: c.regionInit(name, e.st.gen)}
 }
